@@ -10,7 +10,8 @@ result" (nothing matched, or everything matched was suppressed), as a least
 fixpoint over rule references.  A grammar is in the fragment when
 
 * every alternative of every ordered choice is productive (`¬ falsy`),
-* every body of `*`, `+`, `*=`, `+=` is productive,
+* every body of `?`, `*`, `+`, `?=`, `*=`, `+=` is productive (`Optional` wraps its sub-result in a list, so
+  a falsy `[]` would become the truthy `[[]]`),
 * every element of `#` is productive or is an optional (`x?`, `a?=x`) of a productive expression,
 * no string literal is empty.
 
@@ -51,9 +52,9 @@ def docExpr : Expr → Bool
   | .str _ v _ => v != ""
   | .seq xs _ => docAll xs
   | .alt xs _ => !falsyAny nullTok fr xs && docAll xs
-  | .rep op x _ _ _ => (op = .opt || !falsy nullTok fr x) && docExpr x
+  | .rep _ x _ _ _ => !falsy nullTok fr x && docExpr x
   | .unord xs _ _ _ => unordOk xs && docAll xs
-  | .asgn _ op rhs _ _ _ => (op = .plain || op = .opt || !falsy nullTok fr rhs) && docExpr rhs
+  | .asgn _ op rhs _ _ _ => (op = .plain || !falsy nullTok fr rhs) && docExpr rhs
   | .pred _ x _ => docExpr x
   | _ => true
 def docAll : List Expr → Bool
